@@ -21,6 +21,10 @@ Mutation testing (scratch worktree of /repo at the fixed tree, VERIF_REPO=<dir>,
    tests are already red for them; gt-range is equivalent - where re-filters the rows of its index range)
 On the tree without the fix commits the check reports F10 and the other defects listed as `fixed:` in
 known-findings.txt (seed 1: F10 first).
+Thorough tier, tree without the fix commits 170e46c / 0b7a3e2 (worktree /tmp/wt-c22b): seed 1 reports the union
+merge that checks a group/order requirement against each source's fixed (`((t extend a = false) union (t extend
+a = true)) summarize d, a, count` in cursor mode: groups returned several times), seed 3 reports
+ProjectNone.knowExactNrows (`((t minus t) extend x = "a") project x summarize count` gives 1).
 """
 import relcommon
 
